@@ -12,8 +12,8 @@ TotalsQ    == {256, 1022, 1023, 1024, 1025, 2047, 2048, 2049, 4094, 4095} \cup S
 (* (the classes ctrl, lead, dots, delsfx, edge occur through the pattern "odd"; "mb" also on its own: NAME_MAX bytes of multi-byte characters) *)
 PatAll     == {"ascii", "space", "utf8", "dot", "punct", "mixed", "mb", "odd", "same", "one"}
 PatQ       == {"ascii", "punct", "mixed", "odd", "same", "one"}
-ViaAll     == {"direct", "relative", "filelink", "dirlink", "fakeargv0"}
-ViaQ       == {"direct", "filelink", "fakeargv0"}
+ViaAll     == {"direct", "relative", "filelink", "dirlink", "fakeargv0", "relcwd", "path", "chain2", "longlink"}
+ViaQ       == {"direct", "filelink", "fakeargv0", "relcwd", "path", "chain2", "longlink"}
 (* programs installed at the top of a root directory (run by the runner inside a chroot): /x, /d/x, /a/b/x *)
 NoBase     == <<>>
 D123       == {1, 2, 3}
